@@ -46,7 +46,9 @@ EXPLANATION = (
     "The same classification is applied to the formula passed as TEXT with F, to structures whose states are arbitrary (also mutually "
     "unorderable) hashable objects, to one formula OBJECT re-used on structures whose fresh fair label differs, to get_fair_states asked "
     "again after the caller edited the returned set, and (against closed-form answers outside both findings) to structures with "
-    "thousands of states.")
+    "thousands of states. Second audit: states that are plain user objects compared by identity; formula objects built with the classes "
+    "of another language module passed with F; parser and F passed by position; one live structure whose labels / edges / new unlabelled "
+    "states / caller-kept F list are edited between calls with F (answers must be for the structure as it is now).")
 
 P_, Q_ = ('ap', 'p'), ('ap', 'q')
 OPS1 = 'XFG'
@@ -236,8 +238,28 @@ def rename_kd(kd, m):
 # mutually unorderable ones included.  With F the library works on K.clone() and KF-C15-a looks at the first-yielded node
 # of an SCC, so the faithful model is always given the presentation READ BACK from a clone of the live object.
 # ----------------------------------------------------------------------------------------------
+class StateObj(object):
+    """a plain user object as a state: no __eq__ / __hash__, so it is hashed and compared BY IDENTITY (any hashable object is a legal
+    state); a copy of it is another state.  One object per number and per process (dec_name must give the same object every time)"""
+    _made = {}
+
+    def __init__(self, k):
+        self.k = k
+
+    def __repr__(self):
+        return 'StateObj(%d)' % self.k
+
+    @classmethod
+    def get(cls, k):
+        if k not in cls._made:
+            cls._made[k] = cls(k)
+        return cls._made[k]
+
+
 def dec_name(spec):
     t = spec[0]
+    if t == 'o':
+        return StateObj.get(spec[1])
     if t in ('i', 's', 'x'):
         return spec[1]
     if t == 't':
@@ -260,6 +282,13 @@ NAME_STYLES = ['mixed', 'mixed', 'mixed', 'str', 'int']
 
 
 def make_names(rng, n, style):
+    if style == 'obj':
+        return [['o', v] for v in rng.sample(range(40), n)]
+    if style == 'objmix':
+        names = [['o', v] for v in rng.sample(range(40), n)]
+        for i, x in zip(rng.sample(range(n), n // 2), rng.sample(MIXED_NAMES, n // 2)):
+            names[i] = x
+        return names
     if style == 'int':
         return [['i', v] for v in rng.sample(INT_NAMES, n)]
     if style == 'str':
@@ -471,12 +500,16 @@ def canon(r, K, inv=None):
     return ('ok', sorted(v) if inv is None else sorted(inv(s) for s in v))
 
 
-def impl_call(logic, K, f, mode, F=None, objlang=None, inv=None, text=None):
+def impl_call(logic, K, f, mode, F=None, objlang=None, inv=None, text=None, pos=None):
     """text: None = the formula is passed as an OBJECT; 'shared' / 'default' = as a STRING (with an explicit parser object /
-    with the parser the entry point makes itself)"""
+    with the parser the entry point makes itself).  pos: the two optional arguments are passed BY POSITION in the documented order
+    modelcheck(kripke, formula, parser, F): 'none' = (K, f, None, F), 'parser' / 'parser-text' = (K, f, <parser object>, F)"""
     L = lang_module(logic)
     OL = lang_module(objlang or logic)
     arg = to_py(f, OL) if text is None else ftext(f)
+    if pos is not None:
+        pa = shared_parser(logic) if pos.startswith('parser') else None
+        return canon(call(lambda: L.modelcheck(K, arg, pa, F)), K, inv)
     kw = {}
     if text == 'shared':
         kw['parser'] = shared_parser(logic)
@@ -515,6 +548,19 @@ def edit_returned_set(v, how):
         v.add(('#added-by-the-caller',))
 
 
+def clone_sx(K, inv, ks):
+    """presentation of K.clone() for the model; a clone whose states are not (all) states of K - states that are compared by identity
+    and were copied - has no presentation over K's states: the model is then given K's own"""
+    try:
+        return kripke_sx(K.clone(), inv)
+    except KeyError:
+        return ks
+
+
+def xlang_ok(f, ol):
+    return is_ctl_state(f) if ol == 'CTL' else is_ltl_state(f) if ol == 'LTL' else True
+
+
 def do_group(g):
     """g = {'kd', 'Fs': [(F, kind)], 'forms': [(logic, f)], 'bad': [(logic, f)], 'text': {index of a form: 'shared'|'default'}}
     or a group of another stream (g['stream'] = 'reuse' | 'long')"""
@@ -522,12 +568,17 @@ def do_group(g):
         return do_reuse(g)
     if g.get('stream') == 'long':
         return do_long(g)
+    if g.get('stream') == 'living':
+        return do_living(g)
     kd = g['kd']
     nm, inv = name_maps(kd)
     named = bool(kd.get('names'))
     box = {'K': build_K(kd)}
     box['snap'] = kripke_snapshot(box['K'])
     text = {int(i): m for i, m in (g.get('text') or {}).items()}
+    xlang = {int(i): m for i, m in (g.get('xlang') or {}).items()}
+    posd = {int(i): m for i, m in (g.get('pos') or {}).items()}
+    xplain = {}
 
     def guarded(fn):
         """run fn(K); report whether K is unchanged; rebuild K if it was modified"""
@@ -568,13 +619,15 @@ def do_group(g):
             return c
         r, d = guarded(gfs)
         ks = kripke_sx(box['K'], inv)
-        ksc = kripke_sx(box['K'].clone(), inv)      # what modelcheck(..., F=F) works on
+        ksc = clone_sx(box['K'], inv, ks)           # what modelcheck(..., F=F) works on
         Fs = [sorted(P) for P in F]
         e['fair'] = {'impl': r, 'changed': d, 'again': again, 'cmds': [['fair', ks, Fs], ['fairref', ks, Fs], ['scc', ks[0]]] + ([['fair', ksc, Fs]] if ksc != ks else [])}
         e['clone_presentation_differs'] = ksc != ks
         # --- label_fair_states on a private clone (public method; the label must be fresh)
         def lfs(K):
             C = K.clone()
+            if not set(C.states()) <= set(K.states()):
+                return ('err', 'other:K.clone() has states that are not states of K: %r' % sorted(map(repr, set(C.states()) - set(K.states()))))
             before = set(C.labels())
             own = canon(call(lambda: C.get_fair_states(mkF(Fo, kind))), C, inv)     # the fair set of THIS clone
             r = call(lambda: C.label_fair_states(mkF(Fo, kind)))
@@ -599,6 +652,24 @@ def do_group(g):
                 if rt[0] == 'ok' and not F_intact(Fa, Fo):
                     rt = ('err', 'other:the-F-argument-was-modified:%r' % (Fa,))
                 c.update(r_text=rt, changed_text=dt, parser=text[i])
+            if i in xlang and xlang_ok(f, xlang[i]) and call(lambda: to_py(f, lang_module(xlang[i])))[0] == 'ok':
+                # the same formula built with the classes of ANOTHER language module, with and without F
+                ol = xlang[i]
+                if i not in xplain:
+                    xplain[i] = guarded(lambda K: impl_call(logic, K, f, 'plain', objlang=ol, inv=inv))
+                Fa = mkF(Fo, kind)
+                rx, dx = guarded(lambda K: impl_call(logic, K, f, 'F', Fa, objlang=ol, inv=inv))
+                if rx[0] == 'ok' and not F_intact(Fa, Fo):
+                    rx = ('err', 'other:the-F-argument-was-modified:%r' % (Fa,))
+                c['x'] = {'lang': ol, 'plain': xplain[i][0], 'F': rx, 'changed': dx or xplain[i][1]}
+            if i in posd:
+                # parser and F passed by position
+                as_text = 'shared' if posd[i] == 'parser-text' and text_ok(logic, f) else None
+                Fa = mkF(Fo, kind)
+                rp, dp = guarded(lambda K: impl_call(logic, K, f, 'F', Fa, inv=inv, text=as_text, pos=posd[i]))
+                if rp[0] == 'ok' and not F_intact(Fa, Fo):
+                    rp = ('err', 'other:the-F-argument-was-modified:%r' % (Fa,))
+                c['pos'] = {'how': posd[i], 'formula_as': 'text' if as_text else 'object', 'r': rp, 'changed': dp}
             e['cases'].append(c)
         for (logic, f) in g.get('bad', []):
             r, d = guarded(lambda K: impl_call(logic, K, f, 'F', mkF(Fo, kind), objlang='CTLS', inv=inv))
@@ -627,7 +698,7 @@ def do_reuse(g):
     for st in steps:
         nm, inv = name_maps(st['kd'])
         K = build_K(st['kd'])
-        pres.append(kripke_sx(K if st['F'] is None else K.clone(), inv))
+        pres.append(kripke_sx(K, inv) if st['F'] is None else clone_sx(K, inv, kripke_sx(K, inv)))
     res = {'stream': 'reuse', 'steps': steps, 'forms': []}
     cmds = []
     for (logic, f) in g['forms']:
@@ -824,6 +895,113 @@ def do_long(g):
     return res
 
 
+# ----------------------------------------------------------------------------------------------
+# stream 'living': ONE live structure, the caller edits it through the public API (labels, labelling function, edges between
+# existing states, NEW states that he does not label, the contents of his F) between calls WITH F
+# ----------------------------------------------------------------------------------------------
+def kd_now(K):
+    """the structure as it is now, read back from the live object (int states)"""
+    return {'S': list(K._next), 'S0': sorted(K.S0), 'R': [(a, b) for a, ds in K._next.items() for b in ds],
+            'L': {s: sorted(map(str, K._labels[s])) for s in K._next if s in K._labels}}
+
+
+def apply_edit(K, Fa, ed):
+    """one caller action; Fa = the caller's own fairness argument (a list of sets that he keeps and may edit)"""
+    t = ed[0]
+    if t == 'add_edge':
+        K.add_edge(ed[1], ed[2])
+    elif t == 'new_state':                       # a new state the caller never labels; it gets a successor (totality is his duty)
+        if ed[4] == 'add_node':
+            K.add_node(ed[1])
+        K.add_edge(ed[1], ed[2])
+        K.add_edge(ed[3], ed[1])
+    elif t == 'label_add':
+        K.labels(ed[1]).add(ed[2])
+    elif t == 'label_discard':
+        K.labels(ed[1]).discard(ed[2])
+    elif t == 'relabel':
+        K.replace_labelling_function({int(s): set(ls) for s, ls in ed[1].items()})
+    elif t == 'F_add':
+        Fa[ed[1]].add(ed[2])
+    elif t == 'F_discard':
+        Fa[ed[1]].discard(ed[2])
+    elif t == 'F_append':
+        Fa.append(set(ed[1]))
+    else:
+        raise ValueError(ed)
+
+
+def edit_text(ed):
+    t = ed[0]
+    if t == 'add_edge':
+        return 'K.add_edge(%r, %r)' % (ed[1], ed[2])
+    if t == 'new_state':
+        return '%sK.add_edge(%r, %r); K.add_edge(%r, %r)   # state %r is new and is not labelled by the caller' \
+            % ('K.add_node(%r); ' % ed[1] if ed[4] == 'add_node' else '', ed[1], ed[2], ed[3], ed[1], ed[1])
+    if t in ('label_add', 'label_discard'):
+        return 'K.labels(%r).%s(%r)' % (ed[1], t[6:], ed[2])
+    if t == 'relabel':
+        return 'K.replace_labelling_function(%r)' % ({int(s): set(ls) for s, ls in ed[1].items()},)
+    if t == 'F_append':
+        return 'F.append(%r)' % (set(ed[1]),)
+    return 'F[%d].%s(%r)   # the caller edits HIS list of constraints' % (ed[1], t[2:], ed[2])
+
+
+def do_living(g):
+    """g = {'stream': 'living', 'kd', 'F', 'forms': [(logic, f)], 'edits': [...], 'keepF': the caller passes ONE list object every time}.
+    Before the first edit and after every edit: get_fair_states(F), label_fair_states(F) on a clone, modelcheck(K, f, F=F) per form;
+    each answer is for the structure (and the F) AS THEY ARE NOW"""
+    kd = g['kd']
+    K = build_K(kd)
+    Fa = [set(P) for P in g['F']]
+    res = {'stream': 'living', 'g': g, 'steps': []}
+    cmds = []
+    for j in range(len(g['edits']) + 1):
+        failed = None
+        if j:
+            ed = g['edits'][j - 1]
+            er = call(lambda: apply_edit(K, Fa, ed))
+            if er[0] != 'ok':
+                failed = er[1]          # the edit itself is not a call this property speaks about: counted, the sequence goes on
+        now = kd_now(K)
+        Fn = [sorted(P) for P in Fa]
+        snap = kripke_snapshot(K)
+        passF = (lambda: Fa) if g.get('keepF') else (lambda: mkF(Fn, g.get('kind', 'list')))
+        ks = kripke_sx(K)
+        ksc = clone_sx(K, None, ks)
+        st = {'kd': now, 'F': Fn, 'true_fair': true_fair(now, Fn), 'calls': [], 'clone_same': ksc == ks, 'edit_raised': failed}
+        st['fair'] = canon(call(lambda: K.get_fair_states(passF())), K)
+
+        def lfs():
+            C = K.clone()
+            r = call(lambda: C.label_fair_states(passF()))
+            if r[0] != 'ok':
+                return r
+            # (label sets read with .get: a state without a label entry is reported through the calls, not by a crash here)
+            return ('ok', [str(r[1]), sorted(s for s in C.states() if r[1] in C._labels.get(s, ())), r[1] not in K.labels(),
+                           sorted(s for s in C.states() if (set(C._labels.get(s, ())) - {r[1]}) != set(K._labels.get(s, ())))])
+        st['label'] = call(lfs)
+        st['label'] = st['label'][1] if st['label'][0] == 'ok' else st['label']
+        cmds += [['fair', ks, Fn], ['labelfair', ks, Fn]]
+        for (logic, f) in g['forms']:
+            r = impl_call(logic, K, f, 'F', passF())
+            st['calls'].append({'logic': logic, 'f': f, 'r': r, 'ref': sorted(ref_check(now, ref_form(f), [set(P) for P in Fn]))})
+            cmds.append(mcmd(logic, ksc, f, Fn))
+        st['changed'] = snap_diff(snap, kripke_snapshot(K)) if kripke_snapshot(K) != snap else None
+        st['F_intact'] = F_intact(Fa, Fn)
+        res['steps'].append(st)
+    outs = model_batch(cmds)
+    i = 0
+    for st in res['steps']:
+        st['o_fair'], st['o_label'] = outs[i], outs[i + 1]
+        i += 2
+        for c in st['calls']:
+            c['out'] = outs[i]
+            i += 1
+    res['n_model_commands'] = len(cmds)
+    return res
+
+
 def attach_model(res):
     """run the extracted model on the commands of one group (inside the worker) and replace each command by its answer"""
     holders = [(p, 'cmd') for p in res['plain']]
@@ -874,10 +1052,14 @@ class Judge:
         self.outright = {'calls': 0, 'formulas_with_constants': 0, 'out_of_logic_TypeError': 0, 'label_calls': 0,
                          'label_name_agrees_model': 0, 'asked_again_after_editing_the_returned_set': 0,
                          'structures_whose_clone_iterates_differently': 0, 'text_channel_calls_with_F': 0,
-                         'text_channel_default_parser': 0}
+                         'text_channel_default_parser': 0, 'F_and_parser_by_position': 0}
+        self.xlang_cov = {'asked': 0, 'accepted_without_F': 0, 'pairs': {}, 'rejected_with_and_without_F': 0,
+                          'not_judged_differs_without_F_already': 0}
         self.hist = {'states': {}, 'F_sets': {}, 'ops': {}, 'true_fair_kind': {}, 'state_names': {}}
         self.reuse_cov = {'formula_objects': 0, 'calls': 0, 'calls_after_a_step_with_another_fresh_label': 0, 'agree_reference': 0,
                           'known_finding': 0, 'violations': 0}
+        self.living_cov = {'structures': 0, 'modelcheck_calls': 0, 'agree_reference': 0, 'known_finding': 0, 'calls_after_edit_kind': {},
+                           'violations': 0}
         self.long_cov = {'structures': 0, 'states': {}, 'get_fair_states_agree': 0, 'modelcheck_agree': {}, 'modelcheck_seconds_max': 0,
                          'skipped_small_member_under_a_known_finding': 0, 'violations': 0}
 
@@ -1055,6 +1237,40 @@ class Judge:
             elif rt != r:
                 st['violations'] += 1
                 self.viol('mc', '%s.modelcheck(K,f,F=F) answers differently for the formula as TEXT and as an OBJECT' % logic, tobs)
+        if 'x' in c:
+            x = c['x']
+            xo = dict(obs, formula_object_built_with_the_classes_of=x['lang'], xlang=x['lang'], impl_foreign_object_without_F=x['plain'],
+                      impl_foreign_object_with_F=x['F'], impl_own_object_without_F=p['r_plain'])
+            self.xlang_cov['asked'] += 1
+            if x['changed']:
+                st['violations'] += 1
+                self.viol('mc', '%s.modelcheck(K,f,F=F), f built with the %s classes, modified K' % (logic, x['lang']), dict(xo, changed=x['changed']))
+            elif tuple(x['plain']) == tuple(p['r_plain']):
+                # accepted (cast) without F exactly like the logic's own object: with F it is the same formula over fair paths
+                self.xlang_cov['accepted_without_F'] += 1
+                k = '%s<-%s' % (logic, x['lang'])
+                self.xlang_cov['pairs'][k] = self.xlang_cov['pairs'].get(k, 0) + 1
+                if tuple(x['F']) != r:
+                    st['violations'] += 1
+                    self.viol('mc', '%s.modelcheck(K,f,F=F) %s for a well-formed %s formula built with the %s classes, which the same entry '
+                                    'point accepts (casts) without F and answers like its own object'
+                              % (logic, 'raised %s' % x['F'][1] if x['F'][0] != 'ok' else 'answers differently than for its own object', logic, x['lang']), xo)
+            elif x['plain'][0] != 'ok' and x['F'][0] != 'ok':
+                self.xlang_cov['rejected_with_and_without_F'] += 1
+            else:
+                self.xlang_cov['not_judged_differs_without_F_already'] += 1
+        if 'pos' in c:
+            q = c['pos']
+            self.outright['F_and_parser_by_position'] += 1
+            po = dict(obs, pos=q['how'], call='modelcheck(K, <%s>, %s, F)' % (q['formula_as'], 'None' if q['how'] == 'none' else '<parser object>'),
+                      impl_by_position=q['r'], impl_by_keyword=r)
+            if q['changed']:
+                st['violations'] += 1
+                self.viol('mc', '%s.modelcheck(K,f,parser,F) (by position) modified K' % logic, dict(po, changed=q['changed']))
+            elif tuple(q['r']) != r:
+                st['violations'] += 1
+                self.viol('mc', '%s.%s, the optional arguments given BY POSITION in the documented order (kripke, formula, parser, F), %s '
+                                '(F by keyword: %s)' % (logic, po['call'], 'raised %s' % q['r'][1] if q['r'][0] != 'ok' else 'answers %s' % (q['r'][1],), r[1]), po)
         differs_plain = ref != p['ref']
         if differs_plain:
             st['fair_answer_differs_from_unconstrained'] += 1
@@ -1142,6 +1358,68 @@ class Judge:
                                'fresh_fair_label_per_step': labels, 'logic': logic, 'formula': f, 'formula_str': fstr(f), 'failing_step': j + 1,
                                'impl_reused_object': r, 'impl_fresh_object': fresh, 'model': m, 'reference': ref})
 
+    # ---- one live structure edited by the caller between calls with F
+    def living(self, res):
+        R = self.R
+        g = res['g']
+        cov = self.living_cov
+        cov['structures'] += 1
+        base = {'stream': 'living', 'kripke': kdj(g['kd']), 'F': g['F'], 'Fkind': g.get('kind', 'list'), 'keepF': bool(g.get('keepF')),
+                'edits': g['edits'], 'forms': [[l, f] for l, f in g['forms']]}
+        reported = False
+
+        def report(what, j, extra):
+            nonlocal reported
+            cov['violations'] += 1
+            if not reported:
+                reported = True
+                self.viol('living', 'after the caller edits %s: %s' % ('; '.join(edit_text(e) for e in g['edits'][:j]) or '(none yet)', what),
+                          dict(base, failing_step=j, caller_edits_so_far=[edit_text(e) for e in g['edits'][:j]], **extra))
+        for j, st in enumerate(res['steps']):
+            kinds = {e[0] for e in g['edits'][:j]}
+            for k in kinds:
+                cov['calls_after_edit_kind'][k] = cov['calls_after_edit_kind'].get(k, 0) + 1
+            now = {'structure_now': kdj(st['kd']), 'F_now': st['F'], 'true_fair_set_now': st['true_fair']}
+            if st.get('edit_raised'):
+                cov['caller_edits_that_raised'] = cov.get('caller_edits_that_raised', 0) + 1
+            R.evaluations += 1
+            m = ('ok', sorted(ints(st['o_fair'])))
+            r = tuple(st['fair'])
+            if st['changed'] or not st['F_intact']:
+                report('the calls with F modified %s' % ('K (%s)' % st['changed'] if st['changed'] else 'the F argument'), j, now)
+            if r != m and not (r[0] == 'ok' and r[1] == st['true_fair']):
+                report('get_fair_states(F) differs from the fair set of the structure as it is now and from the faithful model', j,
+                       dict(now, impl=r, model_on_current_structure=m))
+            elif j:
+                R.nontriv(('living-fair', json.dumps(base, sort_keys=True, default=str), j))
+            lr = st['label']
+            if lr[0] != 'ok':
+                report('label_fair_states(F) on a clone of the structure raised %s' % lr[1], j, dict(now, impl=lr))
+            elif not lr[1][2] or lr[1][3] or (r[0] == 'ok' and lr[1][1] != r[1] and st['clone_same']):
+                report('label_fair_states(F) on a clone: label not fresh / other labels changed / labels other states than get_fair_states returns',
+                       j, dict(now, impl=lr, impl_fair=r))
+            wrong_fair = not (r[0] == 'ok' and r[1] == st['true_fair'])
+            for c in st['calls']:
+                R.evaluations += 1
+                cov['modelcheck_calls'] += 1
+                mo = model_obs(c['out'])
+                rc = tuple(c['r'])
+                obs = dict(now, logic=c['logic'], formula=c['f'], formula_str=fstr(c['f']), impl=rc, model_on_current_structure=mo, reference_now=c['ref'])
+                if rc[0] != 'ok':
+                    report('%s.modelcheck(K,f,F=F) raised / returned a non-set: %s' % (c['logic'], rc[1]), j, obs)
+                elif rc[1] == c['ref']:
+                    cov['agree_reference'] += 1
+                elif rc == mo:
+                    cov['known_finding'] += 1
+                    self.hit(KFA if wrong_fair else KFB, {'kripke_R': st['kd']['R'], 'L': st['kd']['L'], 'F': st['F'], 'logic': c['logic'],
+                                                          'formula': fstr(c['f']), 'modelcheck': rc[1], 'fair_semantics': c['ref']})
+                else:
+                    report('%s.modelcheck(K,f,F=F) is neither the fair semantics of the structure as it is now nor the faithful model of the coded '
+                           'reduction on it (an answer for an EARLIER state of K or F?)' % c['logic'], j, obs)
+                    continue
+                if j:
+                    R.nontriv(('living-mc', c['logic'], c['f'], json.dumps(base, sort_keys=True, default=str), j))
+
     # ---- long structures
     def long(self, res):
         R = self.R
@@ -1191,6 +1469,9 @@ def judge_all(R, J, results):
             continue
         if res.get('stream') == 'long':
             J.long(res)
+            continue
+        if res.get('stream') == 'living':
+            J.living(res)
             continue
         kd = res['kd']
         J.h('state_names', 'int 0..n-1' if not kd.get('names') else '+'.join(sorted({x[0] for x in kd['names']})))
@@ -1393,7 +1674,8 @@ def build_groups(R):
     for gi, g in enumerate(groups):
         if g.get('forms'):
             g['text'] = {i: ('default' if trng.random() < 0.02 else 'shared') for i in range(len(g['forms'])) if gi < 3 or trng.random() < (0.34 if T else 0.2)}
-    return groups + more_groups(R, pools, quota)
+    groups = groups + more_groups(R, pools, quota)
+    return groups + audit2_groups(R, pools, groups)
 
 
 LONG_LABS = {'chain': [[], ['q'], ['q'], ['p', 'q']], 'a': [['p'], ['p', 'q'], ['q']], 'b': [[], ['q'], ['p', 'q']], 't': [[], ['p'], ['q']],
@@ -1507,6 +1789,131 @@ def more_groups(R, pools, quota):
         p = long_params(rng, 1040, 1150, ring_share=0.15, tail=False)
         f = rng.choice(LONG_LTL if logic == 'LTL' else LONG_CTLS)
         groups.append({'stream': 'long', 'p': p, 'kind': rng.choice(KINDS), 'forms': [(logic, f)], 'text': rng.random() < 0.3})
+    return groups
+
+
+def xlang_choice(rng, logic, f):
+    """another language module whose classes can build f (None if there is none)"""
+    c = [ol for ol in ('CTL', 'LTL', 'CTLS') if ol != logic and xlang_ok(f, ol)]
+    return rng.choice(c) if c else None
+
+
+def living_case(rng, pools):
+    kd, F = base_case(rng)
+    succ = succ_of(kd)
+    states = sorted(succ)
+    labs = {s: set(kd['L'].get(s, [])) for s in states}
+    nxt = {s: set(ds) for s, ds in succ.items()}
+    Fn = [set(P) for P in F]
+    edits = []
+    for _ in range(rng.randint(2, 4)):
+        x = rng.random()
+        st = sorted(nxt)
+        if x < 0.3:
+            s = rng.choice(st)
+            a = rng.choice(['p', 'q'])
+            if a in labs[s]:
+                labs[s].discard(a)
+                edits.append(['label_discard', s, a])
+            else:
+                labs[s].add(a)
+                edits.append(['label_add', s, a])
+        elif x < 0.45:
+            new = {s: sorted(a for a in ('p', 'q') if rng.random() < 0.5) for s in st if rng.random() < 0.8}
+            labs = {s: set(new.get(s, [])) for s in st}
+            edits.append(['relabel', {str(s): ls for s, ls in new.items()}])
+        elif x < 0.65:
+            v = max(st) + 1
+            a, b = rng.choice(st), rng.choice(st)
+            nxt[v] = {a}
+            nxt[b].add(v)
+            labs[v] = set()
+            edits.append(['new_state', v, a, b, rng.choice(['add_edge', 'add_edge', 'add_node'])])
+        elif x >= 0.85 and not Fn:
+            P = rng.sample(st, rng.randint(1, len(st)))
+            Fn.append(set(P))
+            edits.append(['F_append', sorted(P)])
+        elif x < 0.85:
+            non = [(a, b) for a in st for b in st if b not in nxt[a]]
+            if not non:
+                continue
+            a, b = rng.choice(non)
+            nxt[a].add(b)
+            edits.append(['add_edge', a, b])
+        else:
+            i = rng.randrange(len(Fn))
+            s = rng.choice(st)
+            if s in Fn[i]:
+                Fn[i].discard(s)
+                edits.append(['F_discard', i, s])
+            else:
+                Fn[i].add(s)
+                edits.append(['F_add', i, s])
+    fs = [('CTL', f) for f in pick(rng, pools['CTL'], 1, 1)]
+    l = rng.choice(['LTL', 'CTLS'])
+    fs += [(l, f) for f in (pick(rng, pools[l], 1, 0) if rng.random() < 0.6 else pick(rng, pools[l], 0, 1))]
+    fs += [(rng.choice(['CTL', 'LTL', 'CTLS']), ('A', ('G', P_))), ('CTL', ('E', ('F', rng.choice([P_, Q_]))))][:rng.choice([0, 1, 2])]
+    keep = any(e[0].startswith('F_') for e in edits) or rng.random() < 0.3
+    return {'stream': 'living', 'kd': kd, 'F': [sorted(P) for P in F], 'kind': 'list' if keep else rng.choice(KINDS), 'keepF': keep,
+            'forms': fs, 'edits': edits}
+
+
+def audit2_groups(R, pools, earlier):
+    """streams / observers added after the second white-box audit; own generators"""
+    rng = random.Random(R.seed + 1503)
+    T = R.thorough
+    groups = []
+
+    def forms_for(m):
+        fs = [('CTL', f) for f in pick(rng, pools['CTL'], 1, 1)]
+        for l in ('LTL', 'CTLS'):
+            fs += [(l, f) for f in (pick(rng, pools[l], 1, 0) if rng.random() < 0.5 else pick(rng, pools[l], 0, 1))]
+        fs += [(l, noconst(f)) for l, f in rng.sample(small_random_formulas(rng, 1, 3), 1)]
+        return [(l, rename(f, m)) for l, f in fs] if m else fs
+    # (j) states that are plain user objects, hashed and compared BY IDENTITY (a copy of a state is not that state)
+    no = 0
+    for w in witness_groups()[:2]:
+        groups.append(dict(w, kd=dict(w['kd'], names=make_names(rng, len(w['kd']['S']), 'obj')), text={0: 'shared', 5: 'default', 8: 'shared'}))
+    for i in range(500 if T else 45):
+        kd0, F = base_case(rng)
+        kd, m = variant(rng, kd0)
+        kd['names'] = make_names(rng, len(succ_of(kd)), rng.choice(['obj', 'obj', 'objmix']))
+        forms = forms_for(m)
+        Fs = [F, rand_F(rng, kd['S'])]
+        groups.append({'kd': kd, 'Fs': [(Fx, rng.choice(KINDS)) for Fx in Fs], 'forms': forms,
+                       'text': {i: 'shared' for i in range(len(forms)) if rng.random() < 0.3}})
+        no += 1
+    for i in range(60 if T else 8):
+        kd0, F0 = base_case(rng)
+        names = make_names(rng, len(succ_of(kd0)), 'obj')
+        steps = []
+        for how in rng.sample(['plain', 'fair', 'fair+fair0'], 2):
+            kd1 = with_labels(rng, kd0, how)
+            kd1['names'] = names
+            steps.append({'kd': kd1, 'F': F0 if rng.random() < 0.8 else None, 'kind': rng.choice(KINDS)})
+        groups.append({'stream': 'reuse', 'steps': steps, 'forms': forms_for(None)[:3]})
+    R.cov['identity_hashed_state_cases'] = no
+    # (k) a well-formed formula of the called logic built with the classes of ANOTHER language module (CTL.modelcheck documents
+    #     'a type castable in a CTL.Formula'), passed together with F; (l) parser and F passed BY POSITION.  Observers on the forms of
+    #     the groups generated so far (the cases themselves stay what they were)
+    for gi, g in enumerate(earlier + groups):
+        if not g.get('forms') or g.get('stream'):
+            continue
+        xl, ps = {}, {}
+        for i, (logic, f) in enumerate(g['forms']):
+            if gi < 3 or rng.random() < (0.2 if T else 0.12):
+                ol = xlang_choice(rng, logic, f)
+                if ol:
+                    xl[i] = ol
+            if gi < 3 or rng.random() < (0.15 if T else 0.08):
+                ps[i] = rng.choice(['none', 'none', 'parser', 'parser-text'])
+        if xl:
+            g['xlang'] = xl
+        if ps:
+            g['pos'] = ps
+    # (m) living structures: label edits, new unlabelled states, new edges, edits of the caller's F between calls WITH F
+    for i in range(900 if T else 110):
+        groups.append(living_case(rng, pools))
     return groups
 
 
@@ -1655,6 +2062,16 @@ def run(R):
               'faithful model and reference on the small member of the same family, lifted segment by segment (a state and its '
               'representative agree on segment and on the distance to the next special state up to X-depth+2; formulas on which model '
               'and reference differ on the small member are skipped); get_fair_states and CTL on every one, LTL / CTL* on ~1100 states. '
+              'IDENTITY-HASHED STATES: the renamed-state streams again with states that are plain user objects (no __eq__/__hash__: a copy of a '
+              'state is not that state; alone or mixed with builtins): results must be states of K itself. OTHER-MODULE OBJECTS: for a '
+              'share of the (K, F, formula) of every stream the formula is also built with the classes of ANOTHER language module that '
+              'can express it (CTL <- CTL*/LTL classes, LTL <- CTL* classes, CTL* <- CTL/LTL classes) and passed with and without F: where the '
+              'entry point answers it without F like its own object, it must answer it with F like its own object. BY POSITION: for a '
+              'share, modelcheck(K, f, None, F) / modelcheck(K, f-or-text, parser, F) - the documented positional order - must equal the '
+              'keyword call. LIVING STRUCTURES: one live K and one F; before and after each of 2-4 caller edits (K.labels(s).add/discard, '
+              'replace_labelling_function, add_edge between states, a NEW state through add_edge / add_node that the caller never labels, '
+              'in-place edits of the F list he keeps passing) get_fair_states, label_fair_states on a clone and modelcheck(K,f,F=F) in the '
+              'three logics are classified against reference and faithful model of the structure AS IT IS NOW. '
               'Non-trivial: F non-empty and the true fair '
               'set neither empty nor everything, or the fair reference answer differs from the unconstrained one; distinct by '
               '(structure, F[, logic, formula])')
@@ -1679,6 +2096,8 @@ def run(R):
     R.cov['distribution'] = J.hist
     R.cov['formula_object_reuse'] = J.reuse_cov
     R.cov['long_structures'] = J.long_cov
+    R.cov['living_structures'] = J.living_cov
+    R.cov['formula_objects_of_another_language_module_with_F'] = J.xlang_cov
     tot = {k: J.fair.get(k, 0) + sum(J.mcs[l].get(k, 0) for l in J.mcs) for k in ('explored', 'agree_reference', KFA, KFB)}
     R.cov['classification_total'] = {'explored_inputs': tot['explored'], 'agree_with_reference_outright': tot['agree_reference'],
                                      'under_' + KFA: tot[KFA], 'under_' + KFB: tot[KFB],
@@ -1718,6 +2137,23 @@ def replay(R, data):
             print('   impl, the re-used object:', c['reused'], '  impl, a fresh object:', c['fresh'], '  faithful model:', model_obs(c['out']),
                   '  fair reference:', c['ref'], '  object intact:', c['object_intact'], '  K changed:', c['K_changed'])
         print('classification:', J.reuse_cov)
+        return
+    if d.get('stream') == 'living':
+        g = {'stream': 'living', 'kd': kd_from(d['kripke']), 'F': d['F'], 'kind': d.get('Fkind', 'list'), 'keepF': d.get('keepF'),
+             'edits': d['edits'], 'forms': [(l, detup(f)) for l, f in d['forms']]}
+        res = do_group(g)
+        J = Judge(R)
+        judge_all(R, J, [res])
+        print('structure:', g['kd'], ' F:', g['F'], '(the caller keeps and passes ONE list object)' if g['keepF'] else '(%s, built anew for every call)' % g['kind'])
+        for j, st in enumerate(res['steps']):
+            print('step %d%s' % (j, ': caller: ' + edit_text(g['edits'][j - 1]) if j else ' (as constructed)'))
+            print('   structure now:', st['kd'], ' F now:', st['F'])
+            print('   get_fair_states: impl', st['fair'], ' faithful model', sorted(ints(st['o_fair'])), ' true fair set', st['true_fair'],
+                  ' label_fair_states on a clone:', st['label'], ' K changed by the calls:', st['changed'])
+            for c in st['calls']:
+                print('   %s %s with F: impl %s  faithful model on the structure now %s  fair reference now %s'
+                      % (c['logic'], fstr(c['f']), c['r'], model_obs(c['out']), c['ref']))
+        print('classification:', J.living_cov, ' violations:', J.nviol)
         return
     if d.get('stream') == 'long':
         g = {'stream': 'long', 'p': d['p'], 'kind': d.get('Fkind', 'list'), 'text': d.get('channel') == 'text',
@@ -1778,6 +2214,10 @@ def replay(R, data):
         g[key] = [(d['logic'], detup(d['formula']))]
         if key == 'forms':
             g['text'] = {0: d.get('parser', 'shared')}
+            if d.get('xlang'):
+                g['xlang'] = {0: d['xlang']}
+            if d.get('pos'):
+                g['pos'] = {0: d['pos']}
     res = do_group(g)
     J = Judge(R)
     judge_all(R, J, [res])
@@ -1799,5 +2239,10 @@ def replay(R, data):
                   ' K changed:', c['changed'])
             if 'r_text' in c:
                 print('  modelcheck with F, formula as TEXT (%s parser): impl' % c['parser'], c['r_text'], ' K changed:', c['changed_text'])
+            if 'x' in c:
+                print('  the formula built with the %s classes: impl without F' % c['x']['lang'], c['x']['plain'], ' with F', c['x']['F'], ' K changed:', c['x']['changed'])
+            if 'pos' in c:
+                print('  modelcheck(K, <%s>, %s, F) by position: impl' % (c['pos']['formula_as'], 'None' if c['pos']['how'] == 'none' else '<parser>'),
+                      c['pos']['r'], ' K changed:', c['pos']['changed'])
     print('classification:', {'fair_set': J.fair, 'modelcheck': {l: v for l, v in J.mcs.items() if v['explored']},
                               'violations': J.nviol, 'known findings': J.hits})
